@@ -132,6 +132,13 @@ def assemble(unit_path, variant=None):
 
     section = None
     secbuf = []
+    pending_groups = []
+
+    def flush_groups():
+        if pending_groups:
+            A.emit("broadcast use {" + ", ".join(pending_groups) + "};", "prelude", "broadcast groups")
+            A.emit("pub mod cosmwasm_std { pub use crate::*; }\npub mod cw20 { pub use crate::*; }\npub mod white_whale_std { pub use crate::*; pub mod pool_network { pub use crate::*; pub mod asset { pub use crate::*; } } }", "prelude", "path aliases")
+            pending_groups.clear()
 
     def close_section():
         nonlocal section, secbuf
@@ -175,10 +182,14 @@ def assemble(unit_path, variant=None):
             elif pending is not None:
                 raise Inconclusive(f"{unit_path}:{i+1}: raw text inside an extraction directive without a section")
             else:
+                if line.strip() and not line.strip().startswith("//"):
+                    flush_groups()
                 A.emit(line, "raw", os.path.basename(unit_path))
             i += 1
             continue
         d, rest = m.group(1), m.group(2).strip()
+        if d != "use":
+            flush_groups()
         if d in ("requires", "ensures", "closure", "loop", "head", "before", "after", "replace", "with", "decreases"):
             close_section()
             if pending is None:
@@ -211,6 +222,12 @@ def assemble(unit_path, variant=None):
                 pending = {"kind": d, "relpath": relpath, "qual": qual,
                            "opts": {"eq": "eq" in flags, "copy": "copy" in flags, "clone": "noclone" not in flags}}
                 flush()
+        elif d == "mod":
+            close_section(); flush()
+            A.emit(f"pub mod {rest} {{\nuse super::*;\n" + (("use super::{" + ", ".join(getattr(A, "exported", [])) + "};\n") if getattr(A, "exported", []) else "") + IMPORTS, "raw", os.path.basename(unit_path))
+        elif d == "endmod":
+            close_section(); flush()
+            A.emit("}\npub use " + rest + "::*;", "raw", os.path.basename(unit_path))
         elif d in ("use", "lemmas"):
             close_section(); flush()
             path = os.path.join(VERIF, rest)
@@ -226,7 +243,7 @@ def assemble(unit_path, variant=None):
                 A.emit("}\npub use " + modname + "::*;\npub use " + modname + "::{" + ", ".join(names) + "};", "prelude", rest)
                 A.exported = getattr(A, "exported", []) + names
                 for g in re.findall(r"^//@broadcast\s+(\w+)", txt, re.M):
-                    A.emit(f"broadcast use {modname}::{g};", "prelude", rest)
+                    pending_groups.append(f"{modname}::{g}")
             else:
                 A.emit(txt, "lemma", rest)
             A.uses.append(rest)
